@@ -13,19 +13,20 @@ from .bytesm import Buf, Rope, WIRE, blen, as_parts
 
 
 class Sock:
-    __slots__ = ('rpos', 'total', 'end', 'out', 'closed', 'ty', 'wfail')
+    __slots__ = ('rpos', 'total', 'end', 'out', 'closed', 'ty', 'wfail', 'pending')
 
-    def __init__(self, rpos, total, end='eof', out=(), closed=False, wfail=False):
+    def __init__(self, rpos, total, end='eof', out=(), closed=False, wfail=False, pending=()):
         self.rpos = rpos
         self.total = total
         self.end = end
         self.out = tuple(out)
         self.closed = closed
         self.wfail = wfail
+        self.pending = tuple(pending)     # bytes accepted by a BufWriter in front of the socket but not flushed yet
         self.ty = 'Sock'
 
     def upd(self, **kw):
-        s = Sock(self.rpos, self.total, self.end, self.out, self.closed, self.wfail)
+        s = Sock(self.rpos, self.total, self.end, self.out, self.closed, self.wfail, self.pending)
         for k, v in kw.items():
             setattr(s, k, v)
         return s
@@ -68,9 +69,17 @@ def install(E):
     POLLS = {}
 
     # ------------------------------------------------------------------ reads
-    @reg(E, '<tokio::net::TcpStream as AsyncReadExt>::read_buf')
+    @reg_re(E, r'^<(tokio::net::TcpStream|tokio::io::BufWriter<tokio::net::TcpStream>|BufWriter<tokio::net::TcpStream>|tokio::io::BufStream<tokio::net::TcpStream>) as AsyncReadExt>::read_buf$')
     def read_buf(E, a, ctx):
         return Agg('ReadBuf', [a[0], a[1]])
+
+    @reg_re(E, r'^(tokio::io::)?Buf(Writer|Stream)(::<.*>)?::new$')
+    def bufwriter_new(E, a, ctx):
+        return a[0]
+
+    @reg_re(E, r'^(tokio::io::)?Buf(Writer|Stream)(::<.*>)?::(get_mut|get_ref|into_inner)$')
+    def bufwriter_inner(E, a, ctx):
+        return a[0]
 
     @reg_re(E, r"^<tokio::io::util::read_buf::ReadBuf<.*> as Future>::poll$")
     def readbuf_poll(E, a, ctx):
@@ -131,25 +140,44 @@ def install(E):
         return ready(ok(n))
 
     # ------------------------------------------------------------------ writes / shutdown
-    @reg(E, '<tokio::net::TcpStream as AsyncWriteExt>::write_all')
+    @reg_re(E, r'^<(tokio::net::TcpStream|tokio::io::BufWriter<tokio::net::TcpStream>|BufWriter<tokio::net::TcpStream>|tokio::io::BufStream<tokio::net::TcpStream>) as AsyncWriteExt>::write_all$')
     def write_all(E, a, ctx):
-        return Agg('WriteAll', [a[0], a[1]])
+        return Agg('WriteAll', [a[0], a[1], 'Buf' in ctx.callee.split(' as ')[0]])
+
+    @reg_re(E, r'^<(tokio::net::TcpStream|tokio::io::BufWriter<tokio::net::TcpStream>|BufWriter<tokio::net::TcpStream>|tokio::io::BufStream<tokio::net::TcpStream>) as AsyncWriteExt>::flush$')
+    def flush(E, a, ctx):
+        return Agg('Flush', [a[0]])
+
+    @reg_re(E, r"^<tokio::io::util::flush::Flush<.*> as Future>::poll$")
+    def flush_poll(E, a, ctx):
+        w = E.load(a[0].fields[0])
+        sref = w.fields[0]
+        sock = E.load(sref)
+        E.store(sref, sock.upd(out=sock.out + sock.pending, pending=()))
+        E.events.append(('flush',))
+        return ready(ok(UNIT))
 
     @reg_re(E, r"^<tokio::io::util::write_all::WriteAll<.*> as Future>::poll$")
     def writeall_poll(E, a, ctx):
         w = E.load(a[0].fields[0])
-        sref, data = w.fields
+        sref, data = w.fields[0], w.fields[1]
+        buffered = len(w.fields) > 2 and w.fields[2]
         sock = E.load(sref)
         d = E.load(data) if isinstance(data, Ref) else data
         if sock.wfail and E.choose(2, 'write') == 1:
             E.events.append(('write', 'fail'))
             return ready(err(Agg('io::Error', [Enum('ErrorKind', 'BrokenPipe'), None])))
-        E.store(sref, sock.upd(out=sock.out + (d,)))
-        E.events.append(('write', d))
+        if buffered:
+            # a BufWriter keeps small writes until flush()/shutdown(); dropped unflushed they are lost
+            E.store(sref, sock.upd(pending=sock.pending + (d,)))
+            E.events.append(('write', 'buffered', d))
+        else:
+            E.store(sref, sock.upd(out=sock.out + (d,)))
+            E.events.append(('write', d))
         return ready(ok(UNIT))
 
     # a single write(): the kernel may accept any non-empty prefix of the buffer
-    @reg(E, '<tokio::net::TcpStream as AsyncWriteExt>::write')
+    @reg_re(E, r'^<(tokio::net::TcpStream|tokio::io::BufWriter<tokio::net::TcpStream>|BufWriter<tokio::net::TcpStream>|tokio::io::BufStream<tokio::net::TcpStream>) as AsyncWriteExt>::write$')
     def write_once(E, a, ctx):
         return Agg('WriteOnce', [a[0], a[1]])
 
@@ -171,7 +199,7 @@ def install(E):
             E.events.append(('write', 'short', n))
         return ready(ok(n))
 
-    @reg(E, '<tokio::net::TcpStream as AsyncWriteExt>::shutdown')
+    @reg_re(E, r'^<(tokio::net::TcpStream|tokio::io::BufWriter<tokio::net::TcpStream>|BufWriter<tokio::net::TcpStream>|tokio::io::BufStream<tokio::net::TcpStream>) as AsyncWriteExt>::shutdown$')
     def shutdown(E, a, ctx):
         return Agg('Shutdown', [a[0]])
 
@@ -180,7 +208,7 @@ def install(E):
         w = E.load(a[0].fields[0])
         sref = w.fields[0]
         sock = E.load(sref)
-        E.store(sref, sock.upd(closed=True))
+        E.store(sref, sock.upd(closed=True, out=sock.out + sock.pending, pending=()))
         E.events.append(('shutdown',))
         return ready(ok(UNIT))
 
@@ -247,6 +275,14 @@ def install(E):
     @reg(E, 'tokio::net::TcpStream::set_nodelay', 'tokio::net::TcpStream::set_linger')
     def sockopt(E, a, ctx):
         return ok(UNIT)
+
+    @reg(E, 'tokio::net::TcpStream::peer_addr', 'tokio::net::TcpStream::local_addr')
+    def peer_addr(E, a, ctx):
+        # getpeername on an accepted socket fails when the peer has already reset the connection
+        if getattr(E, 'peer_addr_may_fail', False) and E.choose(2, 'peer_addr') == 1:
+            E.events.append(('peer_addr', 'fail'))
+            return err(Agg('io::Error', [Enum('ErrorKind', 'NotConnected'), None]))
+        return ok(Opaque('addr'))
 
     def reset(E):
         E.tasks = []
